@@ -5,7 +5,7 @@ VARIABLE i
 Recs == JsonDeserialize(IOEnv.TRACE_FILE).recs
 Rec == Recs[i]
 T3(s) == << s[1], s[2], s[3] >>
-Pts == [q \in 1..Len(Rec.pts) |-> T3(Rec.pts[q])]
+Pts == TLCEval([q \in 1..Len(Rec.pts) |-> T3(Rec.pts[q])])       \* TLCEval: tabulated once
 Res(r) == [err |-> r.err, val |-> [q \in 1..Len(r.val) |-> r.val[q]]]
 Same(r, x) == r.err = x.err /\ Len(r.val) = Len(x.val) /\ \A q \in 1..Len(r.val) : r.val[q] = x.val[q]
 Grid == IF Len(Rec.grid) = 0 THEN NoGrid ELSE T3(Rec.grid)
